@@ -57,24 +57,21 @@ Inductive bval := VNo | VInt (z : Z) | VStr (s : str).
    println("arm", i [, x]) *)
 Inductive armres :=
 | ArmOk (i : nat) (b : bval)
-| ArmRange (i : nat)        (* assign_variable(name, int, TYPE_INT): payload outside int -> "Value out of range" *)
 | ArmUnbound (i : nat)      (* V(x) on a value without payload: x is never created, the body fails *)
 | NoArm.
-
-Definition in_int32 (z : Z) : bool := (-2147483648 <=? z) && (z <=? 2147483647).
 
 Definition arm_matches (sv : stored) (p : pattern) : bool :=
   match p with PatWild => true | PatVar v _ => str_eqb (s_variant sv) v end.
 
 (* if (!arm.bindings.empty() && enum_value.has_associated_value) { if (name != "_") { str non-empty ?
-   assign string : assign int as TYPE_INT } } *)
+   assign string : assign int as TYPE_LONG } }   (TYPE_LONG since /repo b144e56; it was TYPE_INT) *)
 Definition bind_payload (i : nat) (sv : stored) (b : bindspec) : armres :=
   match b with
   | BNo => ArmOk i VNo
   | BUnder => ArmOk i VNo
   | BName =>
       if s_has sv then
-        if is_empty (s_str sv) then (if in_int32 (s_int sv) then ArmOk i (VInt (s_int sv)) else ArmRange i)
+        if is_empty (s_str sv) then ArmOk i (VInt (s_int sv))
         else ArmOk i (VStr (s_str sv))
       else ArmUnbound i
   end.
@@ -129,7 +126,6 @@ Inductive exitc :=
 | XNotEnum                         (* "Match expression must be an enum type" *)
 | XNoValue                         (* "Function in match expression did not return a value" *)
 | XBadScrutinee                    (* "Match expression must be a variable, function call, or enum constructor" *)
-| XRange                           (* "Value out of range for type" *)
 | XUnbound                         (* "Undefined variable" (binding never created) *)
 | XNotStruct                       (* "Cannot access member ... not a struct or enum" *)
 | XQBad                            (* "? operator ..." *)
@@ -140,7 +136,6 @@ Record result := mkR { r_events : list ev; r_exit : exitc }.
 Definition arm_outcome (variant : str) (a : armres) : list ev * exitc :=
   match a with
   | ArmOk i b => ([EArm i b], XOk)
-  | ArmRange _ => ([], XRange)
   | ArmUnbound _ => ([], XUnbound)
   | NoArm => ([], XNonExhaustive variant)
   end.
@@ -286,7 +281,7 @@ Definition is_declvar (s : step) : bool := match s with StDeclVar => true | _ =>
 Definition safe_a (p : progA) : bool :=
   negb (existsb is_asgcons (a_steps p)) &&
   match c_payload (a_val p) with
-  | PInt z => in_int32 z || match a_final p with FinObs | FinVal => true | _ => false end
+  | PInt _ => true
   | PStr s =>
       negb (is_empty s) &&
       (is_direct (a_final p) ||
@@ -312,6 +307,7 @@ Inductive qctx :=
 | QRet       (* return R::Ok(f(x)?);                                                    *)
 | QBin       (* long v = 0 + (f(x)?);          println("post", i, v); return R::Ok(v); *)
 | QStmt.     (* f(x)?;                         println("post", i);    return R::Ok(100); *)
+(* handle_expression_statement rethrows the ReturnException of `e?;` since /repo d2267e2 *)
 Record link := mkL { l_ctx : qctx; l_err : payload }.
 (* q_sel = i >= 1: link i returns Err(l_err)/None on entry; the last link otherwise returns Ok(q_ok) *)
 Record progQ := mkQ { q_kind : rkind; q_links : list link; q_ok : payload; q_sel : nat }.
@@ -362,9 +358,9 @@ Fixpoint m_chain (k : rkind) (okp : payload) (sel : nat) (i : nat) (ls : list li
                | inl sv =>
                    match m_qmark k sv, l_ctx l with
                    | QBad, _ => (EEnter i :: evs, inr XQBad)
-                   | _, QStmt =>          (* the ReturnException is swallowed by the expression statement *)
-                       (EEnter i :: evs ++ [EPost i VNo], inl (encode (mkC (v_ok k) (PInt 100))))
                    | QThrow r', _ => (EEnter i :: evs, inl r')
+                   | QVal _, QStmt =>     (* the value is discarded *)
+                       (EEnter i :: evs ++ [EPost i VNo], inl (encode (mkC (v_ok k) (PInt 100))))
                    | QVal z, QRet => (EEnter i :: evs, inl (encode (mkC (v_ok k) (PInt z))))
                    | QVal z, QBin =>
                        (EEnter i :: evs ++ [EPost i (VInt (0 + z))], inl (encode (mkC (v_ok k) (PInt (0 + z)))))
@@ -434,17 +430,13 @@ Definition s_run_q (p : progQ) : result :=
   end.
 
 Definition good_payload (p : payload) : bool :=
-  match p with PNone => false | PInt z => in_int32 z | PStr s => negb (is_empty s) end.
+  match p with PNone => false | PInt _ => true | PStr s => negb (is_empty s) end.
 Definition is_qstmt (l : link) : bool := match l_ctx l with QStmt => true | _ => false end.
-Definition is_qbin (l : link) : bool := match l_ctx l with QBin => true | _ => false end.
-(* conforming chains: integer Ok payload within int, failing payload representable, and no link above
-   the failing one discards the value of e? *)
+(* conforming chains: integer Ok payload and representable failing payloads *)
 Definition safe_q (p : progQ) : bool :=
   match q_links p with [] => false | _ => true end &&
-  match q_ok p with PInt z => in_int32 z | _ => false end &&
-  forallb (fun l => good_payload (l_err l)) (q_links p) &&
-  (Nat.eqb (q_sel p) 0 || Nat.ltb (List.length (q_links p)) (q_sel p) ||
-   negb (existsb is_qstmt (firstn (q_sel p - 1) (q_links p)))).
+  match q_ok p with PInt _ => true | _ => false end &&
+  forallb (fun l => good_payload (l_err l)) (q_links p).
 
 (* ------------------------------------------------------------------------------------------ *)
 (* 6. Family C: try / checked                                                                  *)
@@ -502,7 +494,8 @@ Fixpoint contains (needle s : str) : bool :=
 (* classify_runtime_error: the if-chain in source order *)
 Definition classify (msg : str) (is_checked : bool) : str :=
   let l := lower msg in
-  if contains (s2l "division by zero") l || (contains (s2l "divide") l && contains (s2l "zero") l)
+  if contains (s2l "division by zero") l || contains (s2l "modulo by zero") l ||
+     (contains (s2l "divide") l && contains (s2l "zero") l)
   then s2l "DivisionByZeroError"
   else if contains (s2l "null pointer") l || contains (s2l "nullptr") l then s2l "NullPointerError"
   else if contains (s2l "out of bounds") l || contains (s2l "bounds") l then s2l "IndexOutOfBoundsError"
@@ -524,21 +517,26 @@ Inductive tctx :=
 | TRet       (* R g(int a, int b) { ..; println("g1"); return try (e); }     main: match (g(a, b)) {..} *)
 | TDecl      (* R g(..) { ..; println("g1"); R r = try (e); println("g2"); return r; }   same main   *)
 | TVoid      (* void g(..) { ..; println("g1"); R r = try (e); println("g2"); match (r) {..} }  main: g(a, b); *)
-| TMain.     (* main: ..; println("g1"); R r = try (e); println("g2"); match (r) {..}                  *)
+| TMain      (* main: ..; println("g1"); R r = try (e); println("g2"); match (r) {..}                  *)
+| TAsg       (* void g(..) { ..; R r = R::Ok(0); println("g1"); r = try (e); println("g2"); match (r) {..} } *)
+| TAsgMain.  (* the same statements in main *)
 Record progT := mkT { t_checked : bool; t_ctx : tctx; t_a : Z; t_b : Z; t_expr : cexpr }.
 
 Definition t_arms : list pattern := [PatVar (s2l "Ok") BName; PatVar (s2l "Err") BName].
 Definition match_events (sv : stored) : list ev * exitc := arm_outcome (s_variant sv) (mech_match sv t_arms).
 
-(* Mech: try/checked is a `return` of the built Result wherever it stands *)
+(* Mech: try/checked leave by throwing ReturnException(result). `return try e;` hands it to the caller; a
+   declaration `R r = try e;` catches it and stores all four fields (declaration.cpp, since /repo 982c54e);
+   anywhere else (here: an assignment) it still ends the enclosing function *)
 Definition m_run_t (p : progT) : result :=
   let sv := try_like (t_checked p) (ceval (t_a p) (t_b p) (t_expr p)) in
+  let o := match_events sv in
   match t_ctx p with
-  | TRet | TDecl =>          (* g returns sv to main at once; "g2" never runs *)
-      let o := match_events sv in
-      match snd o with XOk => mkR (EG1 :: fst o ++ [EAfter]) XOk | x => mkR [EG1] x end
-  | TVoid => mkR [EG1; EAfter] XOk      (* the void function ends; its match never runs *)
-  | TMain => mkR [EG1] XOk              (* main itself ends: nothing more is printed, exit 0 *)
+  | TRet => match snd o with XOk => mkR (EG1 :: fst o ++ [EAfter]) XOk | x => mkR [EG1] x end
+  | TDecl | TVoid | TMain =>
+      match snd o with XOk => mkR ([EG1; EG2] ++ fst o ++ [EAfter]) XOk | x => mkR [EG1; EG2] x end
+  | TAsg => mkR [EG1; EAfter] XOk       (* the void function ends; its match never runs *)
+  | TAsgMain => mkR [EG1] XOk           (* main itself ends: nothing more is printed, exit 0 *)
   end.
 
 (* Spec: Ok v iff e evaluates to v; otherwise Err naming the class; the statement completes normally *)
@@ -560,9 +558,4 @@ Definition s_run_t (p : progT) : result :=
   match snd o with XOk => mkR (pre ++ fst o ++ [EAfter]) XOk | x => mkR pre x end.
 
 Definition safe_t (p : progT) : bool :=
-  match t_ctx p with TRet => true | _ => false end &&
-  match ceval (t_a p) (t_b p) (t_expr p) with
-  | inl z => in_int32 z
-  | inr RMod0 => false
-  | inr _ => true
-  end.
+  match t_ctx p with TAsg | TAsgMain => false | _ => true end.
